@@ -17,12 +17,12 @@ LOW = ('ADD_NODE', 'DEL_NODE', 'ADD_COL', 'DEL_COL', 'DEL_CON', 'ADD_CON', 'ADD_
        'DEL_LAYER', 'RENAME_LAYER', 'ADD_WELL', 'DEL_WELL', 'REFRESH')
 HIGH = ('RENAME_COL', 'SPLIT', 'REFINE', 'REFINE_LAYERS', 'DECOMPOSE', 'REDUCE', 'CHECK_FIX',
         'SNAP', 'SNAP_NEAREST', 'SET_SURFACE', 'TRANSLATE', 'ROTATE', 'COPY_LAYERS',
-        'DEL_ORPHANS', 'FIT_SURFACE', 'PERSIST')
+        'DEL_ORPHANS', 'FIT_SURFACE', 'SET_OPTION', 'PERSIST')
 ATMCOL = ('ATM', ' 0', '  0', 'ATM')
 # ops that recompute the derived block / connection name lists themselves
 REFRESHING = ('INIT', 'REFRESH', 'RENAME_LAYER', 'RENAME_COL', 'SPLIT', 'REFINE', 'REFINE_LAYERS',
               'DECOMPOSE', 'REDUCE', 'SNAP', 'SNAP_NEAREST', 'SET_SURFACE', 'COPY_LAYERS',
-              'FIT_SURFACE', 'PERSIST')
+              'FIT_SURFACE', 'SET_OPTION', 'PERSIST')
 # ops that change no name, column, connection, layer or surface (lists stay as fresh as they were)
 NEUTRAL = ('TRANSLATE', 'ROTATE', 'ADD_WELL', 'DEL_WELL', 'ADD_NODE', 'DEL_NODE', 'DEL_ORPHANS')
 
@@ -397,7 +397,9 @@ class GeoMachine(Machine):
         ctx.fp.append((kind, done if isinstance(done, (str, int, tuple)) else 0))
         geo = self.geo
         check_core(geo, self.layers_fresh)
-        if kind in REFRESHING:
+        if kind == 'SET_OPTION' and done[0] == 'order':
+            pass      # recomputes the block name list only; the connection list is untouched
+        elif kind in REFRESHING:
             self.index_fresh = True
         elif kind == 'CHECK_FIX':
             # check(fix) adds / deletes connections without promising the derived lists
@@ -702,7 +704,9 @@ class GeoMachine(Machine):
             return False
         mode = ch[0] % 8
         bisect = (False, False, False, True, 'x', 'y', False, False)[mode]
-        if ch[1] % 5 == 0:
+        if geo.num_columns > 400:
+            return False                       # bound on the size of the simulated geometry
+        if ch[1] % 5 == 0 and geo.num_columns <= 120:
             cols = []
         else:
             cols = self.pick_cols(ch[1], ch[2], kmax=6)
@@ -816,13 +820,33 @@ class GeoMachine(Machine):
         geo = self.geo
         if not geo.layerlist:
             return False
+        # the other geometry's layering may start at the same or at a higher datum
+        lift = (0.0, 0.0, 7.5, 25.0)[ch[2] % 4]
         other = geo_build.rect(self.mg, ch[0], 1, 1, nz, convention=geo.convention,
                                atmos=geo.atmosphere_type,
-                               origin=[0., 0., geo.layerlist[0].bottom])
+                               origin=[0., 0., geo.layerlist[0].bottom + lift])
         if any(c.surface <= other.layerlist[-1].bottom for c in geo.columnlist):
             return False        # the other layer structure must still contain every surface
         self.call(lambda: self.geo.copy_layers_from(other), 'copy_layers_from')
         self.layers_fresh = True
+
+    def op_SET_OPTION(self, ch):
+        """Header options with setters that recompute the derived name lists."""
+        geo = self.geo
+        if ch[0] % 2 == 0:
+            opts = [None, 'layer_column']
+            if all(len(c.node) in (3, 4) for c in geo.columnlist):
+                opts.append('dmplex')
+            new = opts[ch[1] % len(opts)]
+            def go():
+                geo.block_order = new
+            self.call(go, 'block_order = %r' % (new,))
+            return ('order', str(new))
+        new = ch[1] % 3
+        def go2():
+            geo.atmosphere_type = new
+        self.call(go2, 'atmosphere_type = %d' % new)
+        return ('atm', new)
 
     def op_DEL_ORPHANS(self, ch):
         self.call(lambda: self.geo.delete_orphans(), 'delete_orphans')
